@@ -108,6 +108,7 @@ def run(tier, seed):
                 el.append((c["elapsed"], c["heal_at"], round(c["elapsed"] / P.c09_bound(c), 4)))
             el.sort()
             gd["outcomes_after_healing"] = ends
+            gd["inconclusive_runs_driver_budget"] = sum(1 for S in healed if S.c09["end"] in ("op-cap", "step-cap"))
             gd["heal_at_ms"] = sorted({S.c09["heal_at"] for S in healed})[:40]
             if el:
                 gd["completion_ms_after_healing_quantiles"] = {q: el[min(int(len(el) * q), len(el) - 1)][0] for q in (0.5, 0.9, 0.99, 1.0)}
